@@ -39,6 +39,10 @@ const ED25519_SPKI_OID: &[u8] = &[0x2b, 0x65, 0x70];
 /// 1.2.840.10045.2.1 ecPublicKey (Elliptic Curve public key cryptography)
 const ECC_SPKI_OID: &[u8] = &[0x2a, 0x86, 0x48, 0xce, 0x3d, 0x02, 0x01];
 
+/// 1.2.840.10045.3.1.7 prime256v1 / secp256r1
+const ECC_P256_CURVE_OID: &[u8] =
+    &[0x2a, 0x86, 0x48, 0xce, 0x3d, 0x03, 0x01, 0x07];
+
 /// The length of an ed25519 private key in bytes
 const ED25519_PRIVATE_KEY_LENGTH: usize = 32;
 
@@ -776,8 +780,14 @@ impl PublicKey {
                     if typ == KeyType::Ecdsa {
                         let _alg_oid =
                             derp::expect_tag_and_get_value(input, Tag::Oid)?;
+                    } else if typ == KeyType::Ed25519 {
+                        // RFC 8410: the parameters are absent; an explicit
+                        // NULL is tolerated as well
+                        if !input.at_end() {
+                            derp::read_null(input)?;
+                        }
                     } else {
-                        // for RSA / ed25519 this is null, so don't both parsing it
+                        // for RSA this is null, so don't both parsing it
                         derp::read_null(input)?;
                     }
                     Ok(typ)
@@ -1161,7 +1171,15 @@ fn write_spki(
             der.sequence(|der| match key_type.as_oid().ok() {
                 Some(tag) => {
                     der.element(Tag::Oid, tag)?;
-                    der.null()
+                    match key_type {
+                        // RFC 8410: no parameters for ed25519
+                        KeyType::Ed25519 => Ok(()),
+                        // RFC 5480: the named curve (only P-256 is supported)
+                        KeyType::Ecdsa => {
+                            der.element(Tag::Oid, ECC_P256_CURVE_OID)
+                        }
+                        _ => der.null(),
+                    }
                 }
                 None => Err(derp::Error::WrongValue),
             })?;
